@@ -36,6 +36,16 @@ fn class_of(v: &str) -> String {
     "plain".into()
 }
 
+fn class_of_ws(v: &str) -> String {
+    if v.ends_with(|c: char| c.is_ascii_whitespace()) {
+        "trailing-whitespace".into()
+    } else if v.starts_with(|c: char| c.is_ascii_whitespace()) {
+        "leading-whitespace".into()
+    } else {
+        class_of(v)
+    }
+}
+
 fn needs_filter_escape(v: &str) -> bool {
     v.bytes().any(|b| matches!(b, 0 | b'(' | b')' | b'*' | b'\\'))
 }
@@ -77,6 +87,22 @@ pub fn check_one(v: &str, rep: &mut Report) {
             match lib_filter(&s) {
                 Ok(Filter::Ext { rule: Some(r), attr: Some(a), value, dn: false }) if r == b"caseExactMatch" && a == b"a" && value == vb => {}
                 other => rep.violation(format!("C09:ldap_escape:not-inert:extensible:{}", class_of(v)), format!("value {:?} escaped {:?} -> {:?}", v, e, other), replay.clone()),
+            }
+            // the documented extension: an item without the outer parentheses (the value then runs
+            // to the very end of the input, so leading/trailing whitespace is part of it)
+            for (tmpl, kind) in [(&b"a="[..], 0u8), (b"a>=", 1), (b"a:=", 2)] {
+                let mut s = tmpl.to_vec();
+                s.extend_from_slice(eb);
+                let ok = match (kind, lib_filter(&s)) {
+                    (0, Ok(Filter::Eq(a, val))) => a == b"a" && val == vb,
+                    (1, Ok(Filter::Ge(a, val))) => a == b"a" && val == vb,
+                    (2, Ok(Filter::Ext { rule: None, attr: Some(a), value, dn: false })) => a == b"a" && value == vb,
+                    _ => false,
+                };
+                // "a=*" style inputs are not the escaped form of anything: escape() never emits a bare '*'
+                if !ok {
+                    rep.violation(format!("C09:ldap_escape:not-inert:bare-item:{}", class_of_ws(v)), format!("value {:?} escaped {:?} in {:?} -> {:?}", v, e, String::from_utf8_lossy(&s), lib_filter(&s)), replay.clone());
+                }
             }
             if !v.is_empty() {
                 // substring initial/any/final
@@ -163,7 +189,7 @@ pub fn exhaustive_short(ctx: &Ctx) -> Report {
     rep
 }
 
-const META: &[&str] = &["\0", "(", ")", "*", "\\", "\"", "+", ",", ";", "<", ">", "=", " ", "#", "/", ":", "&", "|", "!", "~", "a", "0", "F", "é", "中"];
+const META: &[&str] = &["\0", "(", ")", "*", "\\", "\"", "+", ",", ";", "<", ">", "=", " ", "#", "/", ":", "&", "|", "!", "~", "a", "0", "F", "é", "中", "\t", "\n"];
 
 pub fn exhaustive_meta(ctx: &Ctx) -> Report {
     let k = META.len() as u64;
@@ -206,7 +232,7 @@ pub fn gen_string(rng: &mut Rng) -> String {
     }
     s.push_str(&rng.ustring(12));
     if rng.chance(1, 4) {
-        s.push(*rng.pick(&[' ', '#', '\\', ' ']));
+        s.push(*rng.pick(&[' ', '#', '\\', ' ', '\t', '\n']));
     }
     s
 }
